@@ -69,15 +69,17 @@ def tree(t):
 
 
 def tasks_in(case):
-    out = []
+    """list of bulks, each a list of task_in records; uids number the tasks of the whole case"""
+    bulks = {}
     for i, t in enumerate(case['tasks']):
         uid = 't%d' % i
+        out = bulks.setdefault(t.get('bulk', 0), [])
         out.append('{| ti_uid := %s; ti_sb := %s; ti_in := %s; ti_out := %s; ti_soe := %s; ti_outcome := %s; '
                    'ti_exec := %s |}' % (
                        L.string(uid), sandboxes(uid), L.lst([sdin(d) for d in t['in']]),
                        L.lst([sdin(d) for d in t['out']]), L.boolean(t.get('soe')), t['outcome'],
                        L.lst([L.pair(path(r), L.Z(c)) for r, c in t.get('exec', [])])))
-    return L.lst(out)
+    return L.lst([L.lst(bulks[b]) for b in sorted(bulks)])
 
 
 def tobs(o):
@@ -130,9 +132,65 @@ class Gen:
             dirs.append(['client', 'res'])
         ntasks = r.choice([1, 1, 2, 2, 3])
         tasks = []
+        self.files = files
+        self.linked, self.overwritten = set(), set()
+        bulk = 0
         for i in range(ntasks):
-            tasks.append(self.task('t%d' % i, files, dirs, cid))
+            if i and r.random() < 0.35:
+                bulk += 1                      # the next tasks arrive after the former ones are through
+            t = self.task('t%d' % i, files, dirs, cid)
+            t['bulk'] = bulk
+            tasks.append(t)
+        if r.random() < 0.4:
+            self.collide(tasks, files, cid)
         return {'files': files, 'dirs': dirs, 'tasks': tasks}
+
+    def collide(self, tasks, files, cid):
+        """two or three TRANSFER/COPY directives -- of one task, of several tasks of one bulk, of several bulks --
+        stage different data to the same place; sometimes the place holds a file before the run"""
+        r = self.r
+        kind = r.choice(['in-agent', 'in-agent', 'in-client', 'in-client', 'out-client', 'out-agent'])
+        n = r.choice([2, 2, 3])
+        self.k += 1
+        name = r.choice(['shared/p%d.dat', 'cfg%d.dat', 'in/q%d.dat']) % self.k
+        if kind == 'in-agent':
+            sb = r.choice(['pilot', 'pilot', 'session', 'resource', 'task'])
+            act, src_sb, default = 'Copy', r.choice(['pilot', 'session', 'resource']), 'task'
+        elif kind == 'in-client':
+            sb = r.choice(['task', 'task', 'pilot', 'session', 'resource'])
+            act, src_sb, default = 'Transfer', 'client', 'client'
+        elif kind == 'out-client':
+            sb = r.choice(['client', 'client', 'client', 'pilot'])
+            act, src_sb, default = 'Transfer', 'task', 'task'
+        else:
+            sb = r.choice(['pilot', 'pilot', 'session', 'resource'])
+            act, src_sb, default = 'Copy', 'task', 'task'
+        same_task = sb == 'task' or len(tasks) == 1 or r.random() < 0.35
+        who = [r.randrange(len(tasks))] * n if same_task else sorted(r.choice(range(len(tasks))) for _ in range(n))
+        if sb != 'task' and r.random() < 0.3:
+            files.append([sb, name, next(cid)])                  # the target exists before the run
+        for j, ti in enumerate(who):
+            t = tasks[ti]
+            uid = 't%d' % ti
+            if kind.startswith('in'):
+                sname = 'src%d_%d.dat' % (self.k, j)
+                files.append([src_sb, sname, next(cid)])
+                src = self.loc(src_sb, sname, uid, default)
+                tdefault = 'task'
+            else:
+                sname = 'res%d_%d.dat' % (self.k, j)
+                t['exec'].append([sname, next(cid)])
+                src = self.loc('task', sname, uid, 'task')
+                tdefault = 'client' if act == 'Transfer' else 'task'
+                if r.random() < 0.8:
+                    t['outcome'], t['soe'] = 'DONE', False
+            tgt = self.loc(sb, name, uid, tdefault)
+            lst = t['in'] if kind.startswith('in') else t['out']
+            if act == 'Transfer' and r.random() < 0.5:
+                d = self.short(src, tgt)
+            else:
+                d = {'source': src, 'target': tgt, 'action': act}
+            lst.insert(r.randint(0, len(lst)), d) if r.random() < 0.3 else lst.append(d)
 
     def target(self, sbox_choices, uid, default, link=False):
         r = self.r
@@ -151,6 +209,13 @@ class Gen:
             for d in self.dirs:
                 if d[0] == sb:
                     return self.loc(sb, d[1], uid, default)                      # an existing directory
+        elif q < 0.46 and not link:
+            # (never one that some LINK directive links: cp writes through a hard link, not modelled)
+            old = [f for f in self.files if f[0] == sb and (f[0], f[1]) not in self.linked]
+            if old:
+                f = r.choice(old)
+                self.overwritten.add((f[0], f[1]))
+                return self.loc(sb, f[1], uid, default)                          # an existing file is replaced
         return self.loc(sb, name, uid, default)
 
     def task(self, uid, files, dirs, cid):
@@ -176,7 +241,14 @@ class Gen:
             elif z < 0.2 and staged and not client_side:
                 src = self.loc('task', r.choice(staged), uid, 'task')
             else:
+                if a == 'Link':
+                    pool = [f for f in pool if (f[0], f[1]) not in self.overwritten] or pool[:1]
                 f = r.choice(pool)
+                if a == 'Link':
+                    if (f[0], f[1]) in self.overwritten:
+                        a = 'Copy'
+                    else:
+                        self.linked.add((f[0], f[1]))
                 src = self.loc(f[0], f[1], uid, 'client' if client_side else 'task')
             sboxes = ['task'] * 6 + ['pilot', 'session', 'resource']
             tgt = self.target(sboxes, uid, 'task', link=(a in ('Link', 'Tarball')))
@@ -207,6 +279,11 @@ class Gen:
                 src = 'task://host/o1.dat'
             elif z < 0.15:
                 f = r.choice([f for f in files if f[0] != 'client'] or [['task', ex[0][0]]])
+                if a == 'Link':
+                    if (f[0], f[1]) in self.overwritten:
+                        a = 'Copy'
+                    else:
+                        self.linked.add((f[0], f[1]))
                 src = self.loc(f[0], f[1], uid, 'task')
             else:
                 src = self.loc('task', r.choice(ex)[0], uid, 'task')
@@ -255,10 +332,10 @@ class C11(Prop):
                'only_that_task_fails']
     corr_name = ('Staging.Model(run_case: expand/complete_url/tsi_work/asi_work/aso_work/tso_work) vs the real '
                  'expand_description + tmgr/agent staging_input + agent/tmgr staging_output components on a scratch tree')
-    rule = ('corpus, then seed-determined bulks of 1-3 tasks with 0-4 input and 0-3 output directives (all actions; '
+    rule = ('corpus, then seed-determined cases of 1-3 tasks in 1-3 consecutive bulks with 0-4 input and 0-3 output directives (all actions; '
             'short forms > >> < <<, dict form with/without target/action, invalid keys, empty sources; relative, '
             'absolute, file://, pwd://, client/resource/session/pilot/task/endpoint:// spellings; directory and empty '
-            'targets, colliding targets, missing sources, host parts) and outcomes DONE/FAILED/CANCELED with/without '
+            'targets, missing sources, host parts; in 40% of the cases two or three TRANSFER/COPY directives of one task, of several tasks of a bulk or of several bulks staging different data to the same pilot/session/resource/task/client path, the path sometimes holding a file before the run; all initial files are an hour old so that a target staged earlier in the run is newer than the next source) and outcomes DONE/FAILED/CANCELED with/without '
             'stage_on_error; thorough adds an exhaustive action x source-spelling x target-spelling x outcome sweep; '
             'non-trivial = the run changed the file tree and the case has at least two directives')
     trusted = [
